@@ -97,7 +97,7 @@ package vm
 //@   ensures readonly-kept: evm.interpreter.readOnly == old(evm.interpreter.readOnly)
 //@   ensures rules-kept: evm.chainRules == old(evm.chainRules)
 //@   ensures env-kept: evm.StateDB == old(evm.StateDB) && evm.Context.BlockNumber == old(evm.Context.BlockNumber)
-//@   ensures tree-grows: evm.tracer.callTree.count >= old(evm.tracer.callTree.count)
+//@   ensures tree-grows [C07]: evm.tracer.callTree.count >= old(evm.tracer.callTree.count)
 //@   ensures node-pushed [C07]: tree.count > old(tree.count) && node != nil
 //@   ensures failed-frame-reverted [C04]: err != nil ==> (snapTaken ==> statever == snapver) && (!snapTaken ==> statever == old(statever))
 //@   ensures halt-forfeits-gas [C02 C06]: snapTaken && err != nil && err != ErrExecutionReverted ==> leftOverGas == 0
@@ -148,6 +148,7 @@ package vm
 //@   ensures env-kept: in.evm.StateDB == old(in.evm.StateDB) && in.evm.Context.BlockNumber == old(in.evm.Context.BlockNumber)
 //@   ensures tree-grows: in.evm.tracer.callTree.count >= old(in.evm.tracer.callTree.count)
 //@   ensures gas-monotone [C02 C06 assumed]: contract.Gas <= old(contract.Gas)
+//@   ensures frame-assumed [assumed]: kept("vm.EVM.IsExecuteJP", "fld:vm.EVM.Config.Tracer", "cell:uint8", "cell:uint64", "cell:string")
 //@   modifies *
 //@ end
 
@@ -198,7 +199,7 @@ package vm
 //@   ensures readonly-kept: evm.interpreter.readOnly == old(evm.interpreter.readOnly)
 //@   ensures rules-kept: evm.chainRules == old(evm.chainRules)
 //@   ensures env-kept: evm.StateDB == old(evm.StateDB) && evm.Context.BlockNumber == old(evm.Context.BlockNumber)
-//@   ensures tree-grows: evm.tracer.callTree.count >= old(evm.tracer.callTree.count)
+//@   ensures tree-grows [C07]: evm.tracer.callTree.count >= old(evm.tracer.callTree.count)
 //@   ensures node-pushed [C07]: tree.count > old(tree.count)
 //@   ensures failed-frame-reverted [C04]: snapTaken && err != nil && (homestead || err != ErrCodeStoreOutOfGas) ==> statever == snapver
 //@   ensures halt-forfeits-gas [C02 C06]: snapTaken && err != nil && err != ErrExecutionReverted && (homestead || err != ErrCodeStoreOutOfGas) ==> leftoverGas == 0
